@@ -812,7 +812,10 @@ fn lower_single_pattern<'db>(
             let var = lowered_expr.as_var_usage(ctx, builder)?.var_id;
             ctx.variables.variables[var].location = ctx.get_location(stable_ptr);
         }
-        semantic::Pattern::Missing(_) => unreachable!("Missing pattern in semantic model."),
+        // A missing pattern was already reported as a diagnostic by the semantic model.
+        semantic::Pattern::Missing(pattern) => {
+            return Err(LoweringFlowError::Failed(pattern.diag_added));
+        }
     }
     Ok(())
 }
